@@ -66,6 +66,12 @@ def step_angles(Q):
     return 2.0 * np.arctan2(np.sqrt(d[:, 1]**2 + d[:, 2]**2 + d[:, 3]**2), d[:, 0])
 
 
+def step_angles_attitude(Q):
+    """theta_k in [0, pi]: angle of the ROTATION between attitudes k-1 and k (q and -q are the same attitude), k = 1..N-1."""
+    d = qmul_rows(qconj_rows(Q[:-1]), Q[1:])
+    return 2.0 * np.arctan2(np.sqrt(d[:, 1]**2 + d[:, 2]**2 + d[:, 3]**2), np.abs(d[:, 0]))
+
+
 def expq(phi):
     """Unit quaternion of the rotation vector phi (exact exponential map, series near zero)."""
     x, y, z = (float(c) for c in phi)
